@@ -447,6 +447,16 @@ def _limits(col, rule="C10.R4"):
                 if e2.value == ("const", "True") and e2.target[:1] == ("sub",) and e2.target[1] in S.alts(m_["m"]) + (m_["m"],):
                     # the same store, re-indexed by the position at which the mask was set
                     out_.append((list(sx.conds(e2.nid)), ("sub", e.target[1], e2.target[2])))
+        # `mask = np.array([<test at i> for i in range(n)], dtype=bool); step[mask] = 0`: the test of coordinate i, stored at i
+        for a_ in S.alts(e.target[2]) if e.target[:1] == ("sub",) else ():
+            arr = a_
+            if S.is_call_of(arr) and arr[1][:1] == ("attr",) and arr[1][1] == NP and arr[1][2] in ("array", "asarray", "fromiter") and arr[2]:
+                arr = arr[2][0]
+            if arr[:1] == ("acc",) and arr[1] in ("list", "gen") and len(arr[2]) == 1 and arr[2][0][0] == "one" and not arr[2][0][1]:
+                test = arr[2][0][2]
+                pos_ = [x[1][2] for x in S.subterms(test) if x[:1] == ("sub",) and x[2][:1] == ("const",) and x[1][:1] == ("sub",)]
+                if pos_:
+                    out_.append(([test], ("sub", e.target[1], pos_[0])))
         return out_
     for e in sx.of_kind("store"):
         if e.value == ("const", "0") and e.target[:1] == ("sub",):
